@@ -763,3 +763,194 @@ def check_gene_remover(ctx, rule: str) -> None:
     else:
         ctx.ok(rule, vb, "gene := false", f"{n} (rule, removed genes) cases: the rewritten rule is the old rule with the genes absent, mentions none of them, keeps no operator with fewer than two operands; no rule is left exactly when none can be satisfied (evaluated)")
         ctx.ok(rule, vn, "names", "a removed gene disappears, every other name is kept (evaluated)", nontrivial=False)
+
+
+# ------------------------------------------------------------------------------------ GPR.from_string
+def check_from_string(ctx, rule: str) -> None:
+    """GPR.from_string (with GPR.__init__ and GPRCleaner.visit_Name / visit_BinOp) evaluated end to end on rule texts
+    over identifiers that need every kind of escaping the module knows (characters of its replacement table, a leading
+    digit, Python keywords): the text is escaped by the evaluated code, parsed by Python's own `ast.parse` (standard
+    library), cleaned by the evaluated visitor on the real syntax tree, and the resulting rule must mention exactly the
+    identifiers of the text and be the Boolean function the text says (`and` binds tighter than `or`; `&`/`|` are
+    accepted spellings). Module-level tables (replacements, the keyword expression) are evaluated from the module's
+    own top-level statements. Identifiers that spell an escape token are known finding K4 and not part of the scope."""
+    import ast as pyast
+    import copy as _copy
+
+    prog = ctx.prog
+    M = "cobra.core.gene"
+    fs = prog.func(M, "GPR.from_string")
+    init = prog.func(M, "GPR.__init__")
+    vn, vb = prog.func(M, "GPRCleaner.visit_Name"), prog.func(M, "GPRCleaner.visit_BinOp")
+    holder: Dict[str, Any] = {}
+
+    class S_(Node):
+        pass
+
+    class GPRs(S_):
+        kind = "GPR"
+
+        def __init__(self):
+            self.body = None
+            self._genes = set()
+
+        def update_genes(self):
+            self._genes = {n.id for n in pyast.walk(self.body) if isinstance(n, pyast.Name)} if self.body is not None else set()
+
+        def eval(self, knockouts=None):
+            for n in ([] if self.body is None else pyast.walk(self.body)):
+                if not isinstance(n, (pyast.Name, pyast.BoolOp, pyast.And, pyast.Or, pyast.Load, pyast.Expression)):
+                    raise LibTypeErrorG(type(n).__name__)
+            return True
+
+    class LibTypeErrorG(Exception):
+        pass
+
+    class Factory(S_):
+        __name__ = "GPR"
+
+        def __call__(self, gpr_from=None, **kw):
+            g = GPRs()
+            try:
+                holder["it"].call(init, [] if gpr_from is None else [gpr_from], kw, selfobj=g)
+            except LibTypeErrorG:
+                raise EvalRaise("TypeError")
+            return g
+
+        def from_string(self, text):
+            return holder["it"].call(fs, [text], {}, selfobj=self)
+
+    class Cleaner(S_):
+        def __init__(self, **kw):
+            self.gene_set = set()
+
+        def visit(self, node):
+            if isinstance(node, pyast.Name):
+                return holder["it"].call(vn, [node], {}, selfobj=self)
+            if isinstance(node, pyast.BinOp):
+                return holder["it"].call(vb, [node], {}, selfobj=self)
+            return self.generic_visit(node)
+
+        def generic_visit(self, node):
+            # ast.NodeTransformer.generic_visit
+            for field, old in pyast.iter_fields(node):
+                if isinstance(old, list):
+                    new = []
+                    for v in old:
+                        if isinstance(v, pyast.AST):
+                            v = self.visit(v)
+                            if v is None:
+                                continue
+                            if not isinstance(v, pyast.AST):
+                                new.extend(v)
+                                continue
+                        new.append(v)
+                    old[:] = new
+                elif isinstance(old, pyast.AST):
+                    new_node = self.visit(old)
+                    if new_node is None:
+                        delattr(node, field)
+                    else:
+                        setattr(node, field, new_node)
+            return node
+
+    class Super(S_):
+        def __init__(self, *a, **k):
+            pass
+
+    ast_names = {n: getattr(pyast, n) for n in ("AST", "Name", "BoolOp", "BinOp", "And", "Or", "BitAnd", "BitOr", "Expression", "Module", "UnaryOp", "Compare", "Call")}
+
+    def _isinstance(it_, ev, c, args, kwargs):
+        names = [norm(x).split(".")[-1] for x in (c.args[1].elts if isinstance(c.args[1], ast.Tuple) else [c.args[1]])]
+        table = dict(ast_names)
+        table.update({"str": str, "int": int, "list": list, "dict": dict, "set": set, "tuple": tuple, "GPR": GPRs})
+        types = tuple(table[n] for n in names if n in table)
+        return isinstance(args[0], types) if types else False
+
+    def _parse(it_, ev, c, a, k):
+        try:
+            return pyast.parse(*a, **k)
+        except SyntaxError:
+            raise EvalRaise("SyntaxError", c)
+
+    stubs = {
+        "isinstance": _isinstance, "ast.parse": _parse, "super": lambda it_, ev, c, a, k: Super(),
+        "copy.deepcopy": lambda it_, ev, c, a, k: _copy.deepcopy(a[0]),
+        "cobra.core.gene.GPRCleaner": lambda it_, ev, c, a, k: Cleaner(**k),
+        "ast.BoolOp": lambda it_, ev, c, a, k: pyast.BoolOp(*a, **k), "ast.And": lambda it_, ev, c, a, k: pyast.And(), "ast.Or": lambda it_, ev, c, a, k: pyast.Or(),
+        "ast.Name": lambda it_, ev, c, a, k: pyast.Name(*a, **k), "warnings.warn": lambda it_, ev, c, a, k: None,
+    }
+
+    def to_standin(n):
+        if isinstance(n, pyast.Expression):
+            return to_standin(n.body)
+        if isinstance(n, pyast.Name):
+            return NameN(n.id)
+        if isinstance(n, pyast.BoolOp) and isinstance(n.op, (pyast.And, pyast.Or)) and isinstance(n.values, list):
+            return BoolOpN(AndN() if isinstance(n.op, pyast.And) else OrN(), [to_standin(v) for v in n.values])
+        raise ValueError(f"{type(n).__name__} in a cleaned rule")
+
+    ids = ["b0001", "g.1", "1abc", "class", "a-b", "x:y", "it's", 'q"t', "a/b", "k=1", "lambda", "True", "in", "g_1", "b\\c", "0", "is", "G1.2-x:y"]
+    N = NameN
+    AND = lambda *v: BoolOpN(AndN(), list(v))  # noqa: E731
+    OR = lambda *v: BoolOpN(OrN(), list(v))  # noqa: E731
+    cases = []
+    import keyword as _kw
+
+    every_keyword = [w for w in list(_kw.kwlist) + ["True", "False", "None"] if w not in ("and", "or")]
+    for i in ids + [w for w in every_keyword if w not in ids]:
+        cases.append((i, N(i)))
+    for w in every_keyword[::3]:
+        cases.append((f"{w} and (b1 or {w}_x)", AND(N(w), OR(N("b1"), N(f"{w}_x")))))
+    for k in range(0, len(ids) - 2, 2):
+        a, b, c = ids[k], ids[k + 1], ids[k + 2]
+        cases.append((f"{a} and {b}", AND(N(a), N(b))))
+        cases.append((f"{a} or ({b} and {c})", OR(N(a), AND(N(b), N(c)))))
+        cases.append((f"{a} or {b} and {c}", OR(N(a), AND(N(b), N(c)))))
+        cases.append((f"({a} & {b}) | {c}", OR(AND(N(a), N(b)), N(c))))
+        cases.append((f"  ( {a} or {b} ) and {c} ", AND(OR(N(a), N(b)), N(c))))
+    problems: List[str] = []
+    n = 0
+    for text, want in cases:
+        it = Interp(prog, (Node, pyast.AST), [], stubs, globals_={"str": str})
+        it.missing_attr_raises = True
+        holder["it"] = it
+        n += 1
+        try:
+            g = Factory().from_string(text)
+        except EvalRaise as exc:
+            problems.append(f"GPR.from_string({text!r}) raises {exc.exc_type}")
+            continue
+        except Unknown as exc:
+            raise AnalysisError(f"{rule}: GPR.from_string({text!r}) cannot be evaluated: {exc}")
+        if not isinstance(g, GPRs) or g.body is None:
+            problems.append(f"GPR.from_string({text!r}) gives an empty rule")
+            continue
+        try:
+            got = to_standin(g.body)
+        except ValueError as exc:
+            problems.append(f"GPR.from_string({text!r}): {exc}")
+            continue
+        if tree_genes(got) != tree_genes(want) or set(g._genes) != tree_genes(want):
+            problems.append(f"GPR.from_string({text!r}) mentions the genes {sorted(tree_genes(got))} (gene set {sorted(g._genes)}), the text says {sorted(tree_genes(want))}")
+            continue
+        ns = sorted(tree_genes(want))
+        wrong = [k for r in range(len(ns) + 1) for k in itertools.combinations(ns, r) if tree_truth(got, set(k)) != tree_truth(want, set(k))]
+        if wrong:
+            problems.append(f"GPR.from_string({text!r}) is {show(got)}: with {sorted(wrong[0])} knocked out it is {tree_truth(got, set(wrong[0]))}, the text says {tree_truth(want, set(wrong[0]))}")
+    # empty text
+    for text in ("", "   "):
+        it = Interp(prog, (Node, pyast.AST), [], stubs, globals_={"str": str})
+        holder["it"] = it
+        try:
+            g = Factory().from_string(text)
+            if not isinstance(g, GPRs) or g.body is not None:
+                problems.append(f"GPR.from_string({text!r}) is not the empty rule")
+        except EvalRaise as exc:
+            problems.append(f"GPR.from_string({text!r}) raises {exc.exc_type}")
+        except Unknown as exc:
+            raise AnalysisError(f"{rule}: GPR.from_string({text!r}) cannot be evaluated: {exc}")
+    if problems:
+        ctx.bad(rule, fs, fs.node, problems[0] + (f" (+{len(problems) - 1} more)" if len(problems) > 1 else ""))
+    else:
+        ctx.ok(rule, fs, "text -> rule", f"{n} rule texts over {len(ids)} identifiers that need escaping (table characters, leading digit, keywords): parsed rules mention exactly the identifiers of the text and are the Boolean function it says (evaluated; Python's ast.parse parses)")
